@@ -45,9 +45,14 @@ FAILING = ("fail", "error", "kbi", "hb", "ha", "xfail")
 OUTCOMES = PASSING + FAILING
 CHANS = ("O", "E", "LW", "LE", "LO", "LS")
 LOGSPEC = {"LW": ("c18", logging.WARNING), "LE": ("c18", logging.ERROR), "LO": ("other", logging.ERROR),
+           "VL": ("c18", logging.ERROR),
            "LS": ("c18.sub", logging.ERROR)}
-CHAN_NAME = {"O": "stdout", "E": "stderr", "LW": "logging", "LE": "logging", "LO": "logging", "LS": "logging"}
-MARK = re.compile(r"<(O|E|LW|LE|LO|LS):s(\d+)k(\d+)(x?)([bsta])>")
+CHAN_NAME = {"O": "stdout", "E": "stderr", "LW": "logging", "LE": "logging", "LO": "logging", "LS": "logging",
+             "VO": "stdout", "VE": "stderr", "VL": "logging"}
+# VO/VE/VL = the i-th line / record of a "vol" step (volume dimension): <VL:s0k0v00017>
+MARK = re.compile(r"<(O|E|LW|LE|LO|LS|VO|VE|VL):s(\d+)k(\d+)(x?)([bsta]|v\d+)>")
+# volume dimension: N = mult * capacity + offset, capacity read from the real LoggingCapture handler object at run time
+VOLUMES = ((1, -1), (1, 0), (1, 1), (2, 1))
 USER_LEVEL = 25
 
 # logging variants: args, user handler installed in before_scenario?, effective capture level, filter
@@ -105,9 +110,9 @@ def log_captured(chan, lv):
 def route(chan, sw, lv):
     """-> 'cap' (must be in the failure report), 'cap?' (may be), 'out' / 'err' (sentinel), 'user' (user's handler), 'drop'"""
     cap_out, cap_err, cap_log = sw
-    if chan == "O":
+    if chan in ("O", "VO"):
         return "cap" if cap_out else "out"
-    if chan == "E":
+    if chan in ("E", "VE"):
         return "cap" if cap_err else "err"
     if cap_log:
         c = log_captured(chan, lv)
@@ -197,7 +202,19 @@ def emit_all(produced, sid, site):
             logging.getLogger(name).log(level, mk)
 
 
-def drive(scens, sw, lvname):
+def emit_volume(produced, sid, n):
+    out, err, log = sys.stdout, sys.stderr, logging.getLogger("c18")
+    for i in range(n):
+        a, b, c = "<VO:%sv%05d>" % (sid, i), "<VE:%sv%05d>" % (sid, i), "<VL:%sv%05d>" % (sid, i)
+        produced.append(a)
+        produced.append(b)
+        produced.append(c)
+        out.write(a + "\n")
+        err.write(b + "\n")
+        log.error(c)
+
+
+def drive(scens, sw, lvname, vol=None):
     m = harness._imp()
     harness.reset_globals()
     from behave.log_capture import LoggingCapture
@@ -248,6 +265,21 @@ def drive(scens, sw, lvname):
                 if kind in ("exec", "xfail"):
                     ctx.execute_steps(u"Given %sx %s" % (sid, "pass" if kind == "exec" else "fail"))
                     emit_all(produced, sid, "t")
+                if kind == "vol":
+                    # capacity of the real handler object that is capturing right now (fresh instance if none is)
+                    lc = getattr(ctx, "log_capture", None) if sw[2] else None
+                    cap = getattr(lc if lc is not None else LoggingCapture(config), "capacity")
+                    obs["capacity"] = cap
+                    obs["buffered_before"] = len(lc.buffer) if lc is not None else None
+                    n = vol[0] * cap + vol[1]
+                    if vol[2] and lc is not None:
+                        # 'total' mode: N counts ALL records in the buffer when the failing step is judged:
+                        # subtract what is there already and what the remaining sites will add (this step's
+                        # after_step hook + before/step/after of the failing step = 4 sites x captured markers each)
+                        per_site = sum(1 for c in ("LW", "LE", "LO", "LS") if log_captured(c, lv))
+                        n -= len(lc.buffer) + 4 * per_site
+                    obs["vol_n"] = n
+                    emit_volume(produced, sid, n)
                 if kind == "fail":
                     assert False, "boom"
                 if kind == "error":
@@ -257,7 +289,7 @@ def drive(scens, sw, lvname):
             step_impl.__name__ = "step_" + kind
             return step_impl
 
-        for kind in OUTCOMES:
+        for kind in OUTCOMES + ("vol",):
             reg.add_step_definition("step", "{sid:w} %s" % kind, make_step(kind))
 
         def before_scenario(ctx, scenario):
@@ -331,7 +363,7 @@ def judge(scens, sw, lvname, obs, v):
         want = [mk for mk in produced if rt[mk] == key]
         leaked = [mk for mk in got if rt.get(mk) not in (key,)]
         if leaked:
-            sites = sorted(set(MARK.match(mk).group(4) + MARK.match(mk).group(5) for mk in leaked))
+            sites = sorted(set(MARK.match(mk).group(4) + MARK.match(mk).group(5)[0] for mk in leaked))
             v.append(({"subcheck": "isolation", "clause": "captured-output-reaches-real-stream", "stream": sname,
                        "site": "+".join(sites)},
                       "switches %s: real %s received %s which should have been captured/kept away (routes %s)"
@@ -373,11 +405,24 @@ def judge(scens, sw, lvname, obs, v):
                     only_with = "-"
                     if all(MARK.match(mk).group(1) in LOGSPEC for mk in missing) and (lv["filter"] or lv["level"] != logging.INFO):
                         only_with = "+".join(a.split("=")[0] for a in lv["args"] if "level" in a or "filter" in a)
-                    v.append(({"subcheck": "report", "clause": "captured-output-missing-from-failure-report",
-                               "channel": "+".join(sorted(set(chan_of(mk) for mk in missing))),
-                               "from": "+".join(where), "logging_options": only_with},
-                              "switches %s, %s: failing step s%dk%d (%s, status %s): report lacks %s\nerror_message: %r"
-                              % (sws, lvname, si, ki, o, status, sorted(missing)[:8], emsg)))
+                    desc = {"subcheck": "report", "clause": "captured-output-missing-from-failure-report",
+                            "channel": "+".join(sorted(set(chan_of(mk) for mk in missing))),
+                            "from": "+".join(where), "logging_options": only_with}
+                    cap = obs.get("capacity")
+                    if cap is not None:
+                        # volume dimension: name the threshold class instead of the position
+                        nlog = sum(1 for mk in must if CHAN_NAME[MARK.match(mk).group(1)] == "logging")
+                        nmax = max(nlog, sum(1 for mk in must if MARK.match(mk).group(1) in ("O", "VO")),
+                                   sum(1 for mk in must if MARK.match(mk).group(1) in ("E", "VE")))
+                        desc["from"] = "-"
+                        desc["volume"] = ("captured-records>=handler-capacity" if nlog >= cap and desc["channel"] == "logging"
+                                          else ("lines>=handler-capacity" if nmax >= cap else "below-capacity"))
+                    ordered = [mk for mk in upto if mk in missing]
+                    v.append((desc,
+                              "switches %s, %s: failing step s%dk%d (%s, status %s): report lacks %d of %d captured markers "
+                              "(first missing %s, last missing %s; capacity %s, volume N=%s)\nerror_message: %r ... %r"
+                              % (sws, lvname, si, ki, o, status, len(missing), len(must), ordered[0], ordered[-1],
+                                 cap, obs.get("vol_n"), (emsg or "")[:600], (emsg or "")[-300:])))
                 if extra:
                     foreign = [mk for mk in extra if mkey(mk)[0] != si]
                     v.append(({"subcheck": "report", "clause": "foreign-scenario-output-in-report" if foreign
@@ -462,6 +507,61 @@ def run_case(case):
           markers(obs["out"]), markers(obs["err"]), obs["user"], sorted(set(markers(obs["plain"]))),
           sorted(set(markers(obs["pretty"]))))
     return {"v": v, "nt": nt, "out": (sw, lvname, stat, tuple(sorted(set(rt.values())))), "dg": dg}
+
+
+def volume_case(case):
+    """volume dimension: a passing 'vol' step emits N stdout lines, N stderr lines and N log records (N bracketing the
+    capacity of the real LoggingCapture handler), then a step fails; a second scenario fails too."""
+    scens, sw, lvname, vol = case
+    obs = drive(scens, sw, lvname, vol=vol)
+    v = []
+    rt = judge(scens, sw, lvname, obs, v)
+    cap, n = obs.get("capacity"), obs.get("vol_n")
+    if cap is None or n is None or n < 1:
+        v.append(({"subcheck": "volume", "clause": "volume-step-not-executed"}, "capacity %r, N %r" % (cap, n)))
+    # explicit first / last / count on the failing step's report (the judge above compares the complete sets)
+    for si, seq in enumerate(scens):
+        if "vol" not in seq or cap is None or not n or n < 1:
+            continue
+        fk = [ki for ki, o in enumerate(seq) if o in FAILING][0]
+        vk = seq.index("vol")
+        emsg = obs["steps"][si][fk][1] or u""
+        for chan in ("VO", "VE", "VL"):
+            first, last = "<%s:s%dk%dv%05d>" % (chan, si, vk, 0), "<%s:s%dk%dv%05d>" % (chan, si, vk, n - 1)
+            if rt.get(first) != "cap":
+                continue
+            cnt = len(re.findall(r"<%s:s%dk%dv\d+>" % (chan, si, vk), emsg))
+            if first not in emsg or last not in emsg or cnt != n:
+                v.append(({"subcheck": "volume", "clause": "report-truncated", "channel": CHAN_NAME[chan],
+                           "volume": "N>=handler-capacity" if n >= cap else "N<handler-capacity"},
+                          "switches %s, %s: %d %s markers emitted (capacity %d), report holds %d, first present=%s, "
+                          "last present=%s" % ("".join("1" if x else "0" for x in sw), lvname, n, CHAN_NAME[chan], cap,
+                                               cnt, first in emsg, last in emsg)))
+    rep_marks = [[(st, digest(sorted(set(markers(e))))) for st, e in sc] for sc in obs["steps"]]
+    dg = (obs["verdict"], obs["escaped"], len(obs["produced"]), digest(obs["produced"]), obs["ident"], cap, n,
+          rep_marks, digest(markers(obs["out"])), digest(markers(obs["err"])), len(obs["user"]))
+    stat = tuple(sorted(set(st for sc in obs["steps"] for st, _ in sc)))
+    return {"v": v, "nt": digest(case) if any(sw) else None,
+            "out": ("vol", sw, lvname, vol, cap, tuple(sorted(set(rt.values())))), "dg": dg}
+
+
+def volume_cases(tier):
+    progs = [(("vol", "fail"), ("fail",))]
+    if tier != "quick":
+        progs += [(("pass", "vol", "error"), ("pass", "fail")), (("fail",), ("vol", "ha"))]
+    lvs = ("handler", "nohandler") if tier == "quick" else ("handler", "nohandler", "setup_logging", "level", "clear")
+    for lvname in lvs:
+        for prog in progs:
+            for mult, off in VOLUMES:
+                for total in (0, 1):
+                    # total=1: N is chosen so that ALL buffered records of the scenario (volume + regular markers)
+                    # number mult*capacity+off when the failing step is reported
+                    if total and len(prog[0]) != 2:
+                        continue
+                    for sw in SWITCHES:
+                        if total and not sw[2]:
+                            continue
+                        yield (prog, sw, lvname, (mult, off, total))
 
 
 # --------------------------------------------------------------------------- child processes (thorough)
@@ -668,12 +768,27 @@ def run(ctx):
                       "sequences of length <= 3 whose never-executed tail after the first failing step is 'pass'",
                       "outcomes": len(OUTCOMES), "switch_combinations": 8, "logging_variants": 8, "child_processes": len(CHILD_CASES)}
     ctx.sweep(run_case, cases(ctx.tier), chunk=48, name="outcome sequences x 8 capture switches x logging variants")
+    ctx.sweep(volume_case, volume_cases(ctx.tier), chunk=2, name="volume: N lines/records around the log handler capacity")
     if ctx.quick:
         ctx.sweep(run_case, small_cases(), chunk=16, name="remaining logging variants on small programs")
     else:
         ctx.sweep(child_case, CHILD_CASES, chunk=1, name="child processes: markers on the real pipes", replay=False)
     routes = set()
     stats = set()
+    caps = set()
+    vols = set()
+    for k in ctx.outcomes:
+        if k and k[0] == "vol":
+            caps.add(k[4])
+            vols.add(k[3])
+            if k[1][2] and k[2] in ("handler", "nohandler"):
+                routes.add("vol-logcap")
+    ctx.note("log_handler_capacity_observed", sorted(c for c in caps if c is not None))
+    ctx.guard(len(caps) == 1 and None not in caps and min(caps) > 1, "capacity read from the real LoggingCapture handler object")
+    for mult, off in VOLUMES:
+        for total in (0, 1):
+            ctx.guard((mult, off, total) in vols, "volume N = %d*capacity%+d (%s) exercised" % (mult, off, "all buffered records" if total else "volume records"))
+    ctx.guard("vol-logcap" in routes, "volume cases with log capture on")
     for k in ctx.outcomes:
         if len(k) == 4:
             routes.update(k[3])
